@@ -252,9 +252,11 @@ class Spec(EvalableModel):
             if not isinstance(leaf, Component):
                 continue
 
-            global_fanout = 1
+            # Instances = own fanout x fanouts of the nodes above. A Compute that precedes
+            # this node branches off to the side; it is a sibling, not a parent.
+            global_fanout = leaf.get_fanout()
             for p in parents:
-                if isinstance(p, Spatialable):
+                if isinstance(p, Spatialable) and not isinstance(p, Compute):
                     global_fanout *= p.get_fanout()
 
             orig: Component = self.arch.find(leaf.name)
